@@ -17,7 +17,7 @@ PROP = dict(
           "existing keys and == against the same contents built by plain insertions; for merging keys only length, strict ascent, "
           "lookup/enumeration consistency and 'value is one of the merging source values' are asserted), 'clonemove' (two maps of equal "
           "length differing in one key that carries the default value on both sides, then compared), 'rebuild' (the same contents inserted reversed / interleaved / rotated into a fresh container of "
-          "another table size, then compared), clone-then-change-one-value / swap-one-member then compare; Set: <<, >>, contains(x), "
+          "another table size, then compared), clone-then-change-one-value / swap-one-member then compare; Set: <<, every third add instead through the inherited HashMap<T,int>::set(x, 0), >>, contains(x), "
           "contains(set), containsAny, +, &, -, in(), notIn(), array(), Array conversion, construction from Array (with duplicates) and from "
           "initializer lists of 0..4 items. Keys come from adversarial pools: ints b+256j and b+2048j (one bucket in every table size up to "
           "2048), other multiples, negatives, INT_MIN/INT_MAX; Strings from a family of 64 twelve-byte strings with one and the same 33h+c hash "
